@@ -375,7 +375,7 @@ package m3
 //@ func (*reporter).sizeWithBucketTags
 //@   property C12, C13
 //@   allocs
-//@   witness sent []m3thrift.MetricTag = tags
+//@   witness sent []m3thrift.MetricTag = m.Tags
 //@   requires r != nil
 //@   ensures @measured_as_sent len(sent) == len(m.Tags) + 2 && (forall j int :: 0 <= j && j < len(m.Tags) ==> sent[j].Name == m.Tags[j].Name && sent[j].Value == m.Tags[j].Value) && sent[len(m.Tags)].Name == r.bucketIDTagName && sent[len(m.Tags)].Value == bucketID && sent[len(m.Tags)+1].Name == r.bucketTagName && sent[len(m.Tags)+1].Value == bucket && result == psize(m.Name, m.Timestamp, m.Value.MetricType, m.Value.Count, m.Value.Gauge, m.Value.Timer, arrof(sent), len(sent))
 //@   ensures @metric_tags_untouched forall j int :: 0 <= j && j < len(m.Tags) ==> m.Tags[j].Name == old(m.Tags[j].Name) && m.Tags[j].Value == old(m.Tags[j].Value)
